@@ -117,24 +117,30 @@ def lookupRaw (w : World) (p : Path) : Option Node :=
   else if p.isEmpty then some (.dir w.rootMtime)
   else (w.entries.find? (fun e => e.path == p)).map (·.node)
 
-/-- resolve symlinks in every component (as `stat` does); `fuel` bounds link chains -/
-def resolve (w : World) : Nat → Path → Path → Option Path
-  | _, acc, [] => some acc
-  | 0, _, _ => none
-  | fuel + 1, acc, c :: rest =>
+/-- Linux follows at most 40 symbolic links while resolving one path (MAXSYMLINKS); the next one is ELOOP -/
+def maxSymlinks : Nat := 40
+
+/-- resolve symlinks in every component (as `stat` does). `links` counts the links followed so far;
+    `fuel` only makes the recursion structural (it never runs out: see `stepFuel`) -/
+def resolve (w : World) : Nat → Nat → Path → Path → Option Path
+  | _, _, acc, [] => some acc
+  | 0, _, _, _ => none
+  | fuel + 1, links, acc, c :: rest =>
     let p := acc ++ [c]
     match w.lookupRaw p with
     | none => none
-    | some (.link t) => w.resolve fuel [] (t ++ rest)
+    | some (.link t) => if links ≥ maxSymlinks then none else w.resolve fuel (links + 1) [] (t ++ rest)
     | some .linkOut => none
     | some (.file _) => if rest.isEmpty then some p else none
-    | some (.dir _) => w.resolve fuel p rest
+    | some (.dir _) => w.resolve fuel links p rest
 
-def linkFuel : Nat := 64
+/-- more steps than any resolution can take: every followed link costs one of the 40 and the
+    components of paths and targets are bounded by PATH_MAX -/
+def stepFuel : Nat := 1000000
 
 /-- `stat`: follows symlinks; none = ENOENT/ENOTDIR/ELOOP -/
 def stat (w : World) (p : Path) : Option (Path × Node) :=
-  match w.resolve linkFuel [] p with
+  match w.resolve stepFuel 0 [] p with
   | none => none
   | some q => (w.lookupRaw q).map (fun n => (q, n))
 
